@@ -24,6 +24,7 @@ def regenerate_all():
     import gen_json
     import gen_diag
     import gen_scaling
+    import gen_mainccalls
     steps = [("tables", lambda: gen.regenerate(None)), ("callsites", lambda: gen_callsites.regenerate(None)),
              ("radius", lambda: gen_radius.regenerate(None)), ("booksites", lambda: gen_booksites.regenerate(None)),
              ("bookcalls", lambda: gen_bookcalls.regenerate(None)), ("exitsites", lambda: gen_exitsites.regenerate(None)),
@@ -35,7 +36,8 @@ def regenerate_all():
              ("sfista", lambda: gen_sfista.regenerate(None)), ("ownership", lambda: gen_ownership.regenerate(None)),
              ("unscale", lambda: gen_unscale.regenerate(None)), ("trsclip", lambda: gen_trsclip.regenerate(None)),
              ("json", lambda: gen_json.regenerate(None)), ("diag", lambda: gen_diag.regenerate(None)),
-             ("scaling", lambda: gen_scaling.regenerate(None))]
+             ("scaling", lambda: gen_scaling.regenerate(None)),
+             ("solve-main-calls", lambda: gen_mainccalls.regenerate(None))]
     for name, fn in steps:
         try:
             fn()
@@ -43,3 +45,8 @@ def regenerate_all():
         except Exception as exc:      # the dependent property module reports it (its own pre_build)
             done.append("%s:FAILED:%s" % (name, type(exc).__name__))
     return done
+
+
+if __name__ == "__main__":
+    for d in regenerate_all():
+        print(d)
